@@ -364,8 +364,10 @@ func parseRun(args []string) error {
 	}
 	w := bufio.NewWriterSize(os.Stdout, 1<<20)
 	defer w.Flush()
+	budget := 40 * time.Second
 	for gi := range gs {
 		g := &gs[gi]
+		started := time.Now()
 		for ki, k := range g.Ks {
 			b, err := build(g, k)
 			if err != nil {
@@ -373,6 +375,11 @@ func parseRun(args []string) error {
 				continue
 			}
 			for i, in := range g.Inputs {
+				if time.Since(started) > budget {
+					// a pathologically slow grammar (e.g. a loop spinning to MaxIterations): the rest is not judged
+					fmt.Fprintf(w, "%s\t%d\t%d\tskipped\n", g.ID, k, i)
+					continue
+				}
 				if ki == 0 {
 					if msg := lexCheck(b, g, i); msg != "" {
 						fmt.Fprintf(w, "%s\t%d\t%d\tLEXDIFF %s\n", g.ID, k, i, msg)
